@@ -17,7 +17,8 @@ func init() {
 			"(R2) evict => dead: every Delete(x.Name()) in put/del is followed on every path by x.MarkDead() for the same x; " +
 			"(R3) 'leaves the cache unchanged': in the Put callback every return with write=false leaves replaced false, replaced is set only on the path that returns (reg, true), the younger-overlap test compares o.ID() > reg.ID() for every element of the very slice whose elements are later deleted, and nothing is deleted on the not-replaced edge; " +
 			"(R4) isRegionOverlap, evaluated as a truth table over its six atoms by walking its CFG, is exactly nsEq && tableEq && (len(B.stop)==0 || A.start < B.stop) && (len(A.stop)==0 || A.stop > B.start) with strict comparisons; " +
-			"(R5) the three discoverers (findRegion, findAllRegions, establishRegion) treat (overlaps, replaced) alike: on replaced every overlap goes to clients.del, on !replaced the new region is not established.",
+			"(R5) the three discoverers (findRegion, findAllRegions, establishRegion) treat (overlaps, replaced) alike: on replaced every overlap goes to clients.del, on !replaced the new region is not established." +
+			" Added after the seeded-change rounds: (R1) getOverlaps is called only inside put with the cache's write lock held, in the critical section that inserts; (R4) the search key of getOverlaps and the handling of a non-overlapping predecessor.",
 		Residue:   "the inductive no-overlap invariant itself and the positional special cases of getOverlaps' enumerator walk (need enumeration of histories)",
 		Technique: "who-may tables, must-pass-through path search, truth-table extraction by CFG walk, sibling cross-check",
 		Run:       runC08,
